@@ -559,12 +559,85 @@ func (c *Context) Sqrt(d, x *Decimal) (Condition, error) {
 		return 0, err
 	}
 
+	// d may alias x, which is needed again below.
+	var xv Decimal
+	xv.Set(x)
+	x = &xv
 	d.Set(&approx)
 	d.Exponent += int32(e / 2)
 	nc.Precision = c.Precision
 	nc.Rounding = RoundHalfEven
 	res := nc.round(d, d)
+	if d.Form == Finite && !d.IsZero() && res&(Subnormal|Overflow|Clamped) == 0 {
+		// approx is only close to the root: when the root lies next to a
+		// rounding boundary the rounding above can go the wrong way, and
+		// whether the result is exact cannot be read off approx. Compare
+		// squares with x exactly, as the final step of Hull and Abrham does.
+		res = sqrtCorrect(nc, d, x, res)
+	}
 	return nc.goError(res)
+}
+
+// sqrtCorrect makes d the square root of x rounded half-even to
+// nc.Precision digits, given that d is within a few units in the last place
+// of it, and makes the Inexact flag of res say whether d*d == x.
+func sqrtCorrect(nc *Context, d, x *Decimal, res Condition) Condition {
+	// All arithmetic below is exact (BaseContext does not round).
+	var ulp, half, ulpLo, halfLo, lo, hi, sq Decimal
+	ed := MakeErrDecimal(&BaseContext)
+	for i := 0; i < 4; i++ {
+		// One unit in the last place of a result with nc.Precision digits,
+		// and half of it. Below a power of ten the representable values are
+		// ten times denser.
+		nd := d.NumDigits()
+		ulp.SetFinite(1, d.Exponent-(int32(nc.Precision)-int32(nd)))
+		half.SetFinite(5, ulp.Exponent-1)
+		ulpLo.Set(&ulp)
+		halfLo.Set(&half)
+		var tmp BigInt
+		pow10 := d.Coeff.Cmp(tableExp10(nd-1, &tmp)) == 0
+		if pow10 {
+			ulpLo.Exponent--
+			halfLo.Exponent--
+		}
+		ed.Sub(&lo, d, &halfLo)
+		ed.Add(&hi, d, &half)
+		// lo*lo <= x <= hi*hi must hold; an exact tie goes to the even neighbour.
+		ed.Mul(&sq, &hi, &hi)
+		cmpHi := sq.Cmp(x)
+		ed.Mul(&sq, &lo, &lo)
+		cmpLo := sq.Cmp(x)
+		dOdd := sqrtLastDigitOdd(d, ulp.Exponent)
+		switch {
+		case cmpHi < 0 || (cmpHi == 0 && dOdd):
+			ed.Add(d, d, &ulp)
+		case cmpLo > 0 || (cmpLo == 0 && dOdd && !pow10):
+			// (at a power of ten the neighbour below ends in 9: a tie stays)
+			ed.Sub(d, d, &ulpLo)
+		default:
+			i = 4
+		}
+	}
+	if ed.Err() != nil {
+		return res
+	}
+	res |= nc.round(d, d)
+	ed.Mul(&sq, d, d)
+	if ed.Err() == nil && sq.Cmp(x) == 0 {
+		res &^= Inexact
+	} else {
+		res |= Inexact | Rounded
+	}
+	return res
+}
+
+// sqrtLastDigitOdd reports whether the digit of d at exponent exp is odd.
+func sqrtLastDigitOdd(d *Decimal, exp int32) bool {
+	if d.Exponent > exp {
+		// d has trailing zeros down to exp.
+		return false
+	}
+	return d.Coeff.Bit(0) != 0
 }
 
 // Cbrt sets d to the cube root of x.
